@@ -132,11 +132,11 @@ func c15Gen(rnd *rand.Rand, i int, locs []c15Loc) (c15Case, c15Loc) {
 	c.Cacheable = rnd.Intn(3) != 0
 	c.State = "cold"
 	if c.Method == "GET" || c.Method == "HEAD" {
-		c.State = []string{"cold", "cold", "hit", "hfp"}[rnd.Intn(4)]
+		c.State = []string{"cold", "cold", "hit", "hfp", "hfp_flip"}[rnd.Intn(5)]
 		if c.State == "hit" {
 			c.Cacheable = true
 		}
-		if c.State == "hfp" {
+		if c.State == "hfp" || c.State == "hfp_flip" {
 			c.Cacheable = false
 		}
 		c.Cond = []string{"", "", "inm_match", "inm_nomatch", "ims_match", "ims_nomatch", "range_first", "range_suffix", "range_multi", "if_range", "both_match"}[rnd.Intn(11)]
@@ -329,6 +329,13 @@ func c15(r *hx.Run) {
 				r.Violate("warmup_failed", nil, "plain request failed", pre.Brief(), c)
 				continue
 			}
+		}
+		if c.State == "hfp_flip" {
+			// the key is in its hit-for-pass period; from now on the upstream marks the resource cacheable
+			c.Cacheable = true
+			c.State = "hfp"
+			cur = c
+			r.Add("hit_for_pass_keys_whose_upstream_turned_cacheable", 1)
 		}
 		sent := http.Header{}
 		for _, kv := range c.Header {
